@@ -3,8 +3,8 @@ package checks
 import (
 	"encoding/json"
 	"errors"
-	"math/big"
 	"fmt"
+	"math/big"
 	"sort"
 	"strings"
 
@@ -25,14 +25,14 @@ import (
 // "_name" sibling of a primitive merged in) together with the proto message
 // that jsonformat rendered there.
 type c02Node struct {
-	msg    proto.Message // nil for the synthesised Reference.reference string
-	copied bool          // reached through an Any-packed contained resource: equal copy, not the same pointer
-	text   string        // reference text when msg == nil
-	names  []string      // child element names in first-occurrence order
-	kids   map[string][]*c02Node
+	msg      proto.Message // nil for the synthesised Reference.reference string
+	copied   bool          // reached through an Any-packed contained resource: equal copy, not the same pointer
+	text     string        // reference text when msg == nil
+	names    []string      // child element names in first-occurrence order
+	kids     map[string][]*c02Node
 	repeated map[string]bool
-	md     protoreflect.MessageDescriptor
-	jval   any // JSON value of a primitive element (string, json.Number, bool); nil when it has none
+	md       protoreflect.MessageDescriptor
+	jval     any // JSON value of a primitive element (string, json.Number, bool); nil when it has none
 }
 
 var c02Keywords = map[string]bool{"div": true, "mod": true, "and": true, "or": true, "xor": true, "implies": true, "true": true, "false": true,
@@ -356,8 +356,8 @@ func c02Shape(root *c02Node, names []string) string {
 
 func init() {
 	core.Register(&core.Check{
-		ID: "C02",
-		Rule: "for every resource of the schema-covering family (146 types, every field populated, each-choice covering, depth 2 quick / 3 thorough; typed/versioned/absolute/fragment/URN references, contained resources, Bundle entries, primitive ids and extensions, every date/time precision): the jsonformat JSON tree is walked in parallel with the proto to build the logical element tree; every name path of the tree and every prefix is evaluated un-indexed with and without the root type, with exactly one step indexed (each step, indexes 0, 1, len-1, len) and fully indexed down to every single element; results are compared with the tree by pointer identity (equal copy through Any-packed contained resources, string value for Reference.reference), in document order; for every primitive element that has a JSON value, `<fully indexed path>.value` must yield one System value equal to the JSON value (strings, codes, dates, dateTimes, instants and times textually - hence same instant, precision and offset -, numbers numerically, booleans by value); every one of the other 145 resource type names as root gives empty; per message type, names of other types and proto-only names must fail with ErrInvalidField (unless the name is an element of another item's type at the same path: mixed contained resources, Bundle entries), and so must the rest of an indexed path whose selected item's type lacks the next name; non-trivial = distinct (resource, expression, outcome)",
+		ID:          "C02",
+		Rule:        "for every resource of the schema-covering family (146 types, every field populated, each-choice covering, depth 2 quick / 3 thorough; typed/versioned/absolute/fragment/URN references, contained resources, Bundle entries, primitive ids and extensions, every date/time precision): the jsonformat JSON tree is walked in parallel with the proto to build the logical element tree; every name path of the tree and every prefix is evaluated un-indexed with and without the root type, with exactly one step indexed (each step, indexes 0, 1, len-1, len) and fully indexed down to every single element; results are compared with the tree by pointer identity (equal copy through Any-packed contained resources, string value for Reference.reference), in document order; for every primitive element that has a JSON value, `<fully indexed path>.value` must yield one System value equal to the JSON value (strings, codes, dates, dateTimes, instants and times textually - hence same instant, precision and offset -, numbers numerically, booleans by value); every one of the other 145 resource type names as root gives empty; per message type, names of other types and proto-only names must fail with ErrInvalidField (unless the name is an element of another item's type at the same path: mixed contained resources, Bundle entries), and so must the rest of an indexed path whose selected item's type lacks the next name; non-trivial = distinct (resource, expression, outcome)",
 		Assumptions: []string{"google/fhir jsonformat defines the FHIR JSON tree", "the parallel JSON/proto walk uses only proto descriptors (JSON names, oneof 'choice', ContainedResource, Any)"},
 		Subs: func(tier string) []core.Sub {
 			names := lib.ResourceTypeNames()
@@ -544,6 +544,43 @@ func init() {
 						}
 					}
 					full(tn, root)
+					// the resource is the caller's: after it re-packed a contained resource in place, an expression compiled
+					// before sees the new content (nothing about the old content may stick to the compiled expression)
+					if cl, ok := proto.Clone(res).(fhir.Resource); ok {
+						cf := cl.ProtoReflect().Descriptor().Fields().ByName("contained")
+						if cf != nil && cf.IsList() && cl.ProtoReflect().Get(cf).List().Len() > 0 {
+							srcs := []string{tn + ".contained.id", tn + ".contained[0].id", tn + ".contained.meta.versionId", "contained.id.count()"}
+							var comps []lib.Res
+							for _, src := range srcs {
+								c := lib.Compile(src)
+								comps = append(comps, c)
+								lib.EvalOpts(c, []fhir.Resource{cl}, lib.EnvOpts(nil)...) // first evaluation, old content
+								r.Eval()
+							}
+							a := cl.ProtoReflect().Get(cf).List().Get(0).Message().Interface().(*anypb.Any)
+							cr := &bcrpb.ContainedResource{}
+							if a.UnmarshalTo(cr) == nil {
+								if inner := cr.ProtoReflect().WhichOneof(cr.ProtoReflect().Descriptor().Oneofs().ByName("oneof_resource")); inner != nil {
+									im := cr.ProtoReflect().Mutable(inner).Message()
+									if idf := im.Descriptor().Fields().ByName("id"); idf != nil {
+										im.Set(idf, protoreflect.ValueOfMessage(fhir.ID("repacked-1").ProtoReflect()))
+									}
+									if a.MarshalFrom(cr) == nil {
+										for k, src := range srcs {
+											again := lib.EvalOpts(comps[k], []fhir.Resource{cl}, lib.EnvOpts(nil)...)
+											fresh := lib.Run(src, []fhir.Resource{cl}, nil)
+											r.Eval()
+											r.State("repacked-contained")
+											r.Nontrivial(tn, "repacked", src, again.Class())
+											if again.String() != fresh.String() {
+												r.Fail("navigation|contained-resource-repacked-in-place|compiled-expression-sees-stale-content", core.W{"type": tn, "variant": vi, "src": src, "reused_expression": core.Short(again.String(), 200), "fresh_expression": core.Short(fresh.String(), 200)})
+											}
+										}
+									}
+								}
+							}
+						}
+					}
 					// every other root type gives empty
 					others := []string{"Patient", "Observation", "Basic", "Bundle"}
 					if vi == 0 {
